@@ -508,6 +508,68 @@ def stage_interleave(ctx: Ctx, progs):
     ctx.correspondence('models/Interleave.v merge by (line, column) == astutil.syntax_ordered_children on args / bases + keywords of every Call and ClassDef', len(terms), [meta[i] for i in failed])
 
 
+FILTER_PROGS = ['x = [a, [b, c], f(d, k=e), {g: h}]\n', 'def f(p, q=1):\n    if p:\n        return q + [r for r in s]\n    t = lambda u: u\n', 'class K(B):\n    y: int = f"{z!r}"\n    with m as n: del o\n',
+                'match v:\n    case [1, w] if w: pass\n    case {"k": x}: x += 1\n']
+
+
+def stage_filter_grid(ctx: Ctx):
+    """deterministic: walk() with every kind of `all` filter (True / False / 'loc' / one node type / several; leaf classes, compared exactly as documented) x on in (enter, leave, both) x recurse x back x self_, on every node of
+    a few programs as walk root: the three `on` modes agree (the entry events of 'both' are the 'enter' walk, its leave events the 'leave' walk, entered nodes are left innermost first),
+    a TYPE filter yields exactly the nodes of that type among those the unfiltered walk with the same parameters reaches below an ACCEPTED path (recurse=False: direct children only;
+    a rejected node is never entered and, without recursion, nothing below it is), and first_child() / next() give the recurse=False sequence"""
+    import fst
+    filters = [('True', True), ('False', False), ("'loc'", 'loc'), ('Name', ast.Name), ('(Name, Constant)', (ast.Name, ast.Constant)), ('Call', ast.Call), ('{If, Return, Name}', {ast.If, ast.Return, ast.Name})]
+    for src in FILTER_PROGS:
+        root = fst.FST(src, 'exec')
+        for W in root.walk(True):
+            wpath = root.child_path(W, True)
+            for fname, flt in filters:
+                for recurse in (True, False):
+                    for back in (False, True):
+                        for self_ in (True, False):
+                            kw = dict(recurse=recurse, back=back, self_=self_)
+                            rec = {'src': src, 'walk_root': wpath or 'root', 'all': fname, **{k: repr(v) for k, v in kw.items()}}
+                            try:
+                                ent = [id(n) for n in W.walk(flt, on='enter', **kw)]
+                                lea = [id(n) for n in W.walk(flt, on='leave', **kw)]
+                                both = [(id(n), l) for n, l in W.walk(flt, on='both', **kw)]
+                            except Exception as e:
+                                ctx.violation(f'filter-grid|raise|{type(e).__name__}', 'walk() raised', {**rec, 'error': repr(e)[:200]})
+                                continue
+                            ctx.tick(('filter-grid', src, wpath, fname, recurse, back, self_), f'filter-grid:{fname}')
+                            label = lambda ids: [next(n.src[:20] for n in root.walk(True) if id(n) == i) for i in ids][:10]
+                            if [i for i, l in both if not l] != ent or [i for i, l in both if l] != lea:
+                                ctx.violation(f'filter-grid|on-modes|{fname}|recurse={recurse}', "walk(on='both') does not yield the entry events of on='enter' and the leave events of on='leave'",
+                                              {**rec, 'enter': label(ent), 'both_entries': label([i for i, l in both if not l]), 'leave': label(lea), 'both_leaves': label([i for i, l in both if l])})
+                                continue
+                            st, bad = [], False
+                            for i, l in both:
+                                if not l:
+                                    st.append(i)
+                                elif not st or st.pop() != i:
+                                    bad = True
+                                    break
+                            if bad or st:
+                                ctx.violation(f'filter-grid|nesting|{fname}', "walk(on='both'): entered nodes are not left innermost first", rec)
+                                continue
+                            if isinstance(flt, (type, tuple, set)):
+                                # reference: the unfiltered walk reaches everything (recurse=True) / the direct children (recurse=False); the type filter keeps those of the type
+                                base = list(W.walk(True, on='enter', **kw))
+                                want = [id(n) for n in base if (type(n.a) is flt if isinstance(flt, type) else type(n.a) in flt)]
+                                if ent != want:
+                                    ctx.violation(f'filter-grid|type-filter|{fname}|recurse={recurse}', 'walk(all=<type>) does not yield exactly the nodes of that type which the unfiltered walk with the same parameters reaches',
+                                                  {**rec, 'got': label(ent), 'expected': label(want)})
+                                    continue
+                            if not recurse and not self_:
+                                chain = []
+                                c = W.last_child(flt) if back else W.first_child(flt)
+                                while c is not None and len(chain) < 200:
+                                    chain.append(id(c))
+                                    c = c.prev(flt) if back else c.next(flt)
+                                if chain != ent:
+                                    ctx.violation(f'filter-grid|next-chain|{fname}', 'first_child() / next() (last_child() / prev()) with a filter do not give the recurse=False walk', {**rec, 'chain': label(chain), 'walk': label(ent)})
+
+
 def run(ctx: Ctx):
     ctx.rule = ('(1) every distinct node shape (class x field occupancy) of the corpus: translated tables executed in Coq vs the real stepping functions; '
                 '(2) random (start node, all-filter, on, back, recurse) walks: stack-machine model vs real generator; (3) per corpus program the full '
@@ -529,6 +591,7 @@ def run(ctx: Ctx):
     run_guarded(ctx, stage_oracle, progs)
     run_guarded(ctx, stage_interleave, progs)
     run_guarded(ctx, stage_modes, zoo + progs[:ctx.scale(6, 40)])
+    run_guarded(ctx, stage_filter_grid)
 
 
 def replay(path):
